@@ -1,6 +1,188 @@
-(* C14 preliminary *)
-From BT Require Import Base.ListX AdvData.AdvDataModel AdvData.AdvDataSpec.
+(* C14  Advertising and scan response data are well-formed.  Statements only; proofs in AdvData/AdvDataProofs.v.
+
+   cfg is a server declaration (name of any length, appearance option, 16-bit and 128-bit service UUID lists of
+   any length, optional connection interval range, static custom data, runtime custom data); wf_cfg says the
+   128-bit UUIDs are 16 octets. b is the buffer size, ANY natural number unless stated otherwise. The buffer is
+   modelled as b octets pre-filled with 0xAA (fill); a store outside it is the outcome OFault. *)
+From BT Require Import Base.ListX AdvData.AdvDataModel AdvData.AdvDataSpec AdvData.AdvDataProofs.
+
+(* 1. Memory safety and framing, every declaration, every runtime state, EVERY buffer size: both calls return
+      (no store outside [0,b)), the result is at most b, the buffer keeps its size, and the octets from the
+      result on are untouched. *)
+Theorem C14_memory_safe :
+  forall (c : cfg) (s : state) (b : nat), wf_cfg c ->
+    (exists r buf, advertising_data c s b = ORes r buf /\ r <= b /\ length buf = b /\ skipn r buf = repeat fill (b - r)) /\
+    (exists r buf, scan_response_data c s b = ORes r buf /\ r <= b /\ length buf = b /\ skipn r buf = repeat fill (b - r)).
+Proof. exact memory_safe. Qed.
+Print Assumptions C14_memory_safe.
+
+(* 2. The generator equals the abstract generator spec_ads for EVERY buffer size (raw = the octets the code
+      stores, i.e. with the length octet reduced mod 256). *)
+Theorem C14_generator_is_spec :
+  forall (c : cfg) (b : nat), wf_cfg c ->
+    size (spec_ads c b) <= b /\
+    adv_auto c b = Some (raw (spec_ads c b) ++ repeat fill (b - size (spec_ads c b)), size (spec_ads c b)).
+Proof. exact adv_auto_spec. Qed.
+Print Assumptions C14_generator_is_spec.
+
+(* 3. Well-formedness of the automatically generated advertising data, every declaration, b <= 259
+      (in particular the property's 0..31): the payload is exactly tiled by AD structures (tiles), it fits the
+      buffer and 31 octets when b <= 31, empty structures come last, the flags AD is first when b >= 3, and
+      every other structure obeys
+        name_clause   0x09 carries the whole name; 0x08 carries a non-empty strict prefix of it
+        uuid_clause   0x03 / 0x07 carry all UUIDs; 0x02 / 0x06 a non-empty strict prefix of whole UUIDs
+        other_clause  only name / UUID list / appearance / interval range structures occur, the latter two
+                      with the declared values. *)
+Theorem C14_advertising_data_wellformed :
+  forall (c : cfg) (s : state) (b : nat), wf_cfg c -> b <= 259 -> runtime_adv c = false -> custom_adv c = None ->
+  exists ads,
+    advertising_data c s b = ORes (size ads) (flat_map enc ads ++ repeat fill (b - size ads)) /\
+    tiles ads (flat_map enc ads) /\ size ads <= b /\ (b <= 31 -> size ads <= 31) /\
+    padding_last ads = true /\
+    (3 <= b -> exists r, ads = AD ad_flags [6%N] :: r /\
+                         forall a, In a r -> name_clause c a /\ uuid_clause c a /\ other_clause c a) /\
+    (b < 3 -> forall a, In a ads -> name_clause c a /\ uuid_clause c a /\ other_clause c a).
+Proof. exact adv_wellformed. Qed.
+Print Assumptions C14_advertising_data_wellformed.
+
+(* 4. The parser (the executable meaning of "tiles") is sound and complete. *)
+Theorem C14_parser_sound : forall l ads, parse_ads l = Some ads -> tiles ads l.
+Proof. exact parse_ads_sound. Qed.
+Theorem C14_parser_complete : forall ads, Forall ad_ok ads -> parse_ads (flat_map enc ads) = Some ads.
+Proof. exact parse_ads_complete. Qed.
+Print Assumptions C14_parser_sound.
+Print Assumptions C14_parser_complete.
+
+(* 5. Custom data: the copy of the first min(size, b) octets (any b); it is tiled whenever the whole data fits
+      and the user's data is itself a sequence of AD structures. A truncated copy (b < size) is cut
+      mid-structure - documented as the user's responsibility, nothing is claimed there. Runtime data is at
+      most 31 octets. *)
+Theorem C14_custom_data_is_copied :
+  forall c s b d, runtime_adv c = false -> custom_adv c = Some d ->
+    advertising_data c s b =
+      ORes (Nat.min (length d) b) (firstn (Nat.min (length d) b) d ++ repeat fill (b - Nat.min (length d) b)).
+Proof. exact custom_adv_copy. Qed.
+Theorem C14_custom_data_tiles_when_it_fits :
+  forall (d : list N) b ads, tiles ads d -> length d <= b -> tiles ads (firstn (Nat.min (length d) b) d).
+Proof. exact custom_tiles_when_it_fits. Qed.
+Theorem C14_runtime_data_bounded : forall d, length (set_runtime d) <= 31.
+Proof. exact runtime_data_bounded. Qed.
+Print Assumptions C14_custom_data_is_copied.
+
+(* 6. Automatic scan response, after the fix on branch fix/C14-scan-response-buffer, EVERY buffer size:
+      nothing for b < 2, otherwise the two empty AD structures. *)
+Theorem C14_scan_response_wellformed :
+  forall c s b, runtime_scan c = false -> custom_scan c = None ->
+  exists ads, scan_response_data c s b = ORes (size ads) (flat_map enc ads ++ repeat fill (b - size ads)) /\
+              size ads <= b /\ ads = (if b <? 2 then [] else [Empty; Empty]).
+Proof. exact scan_auto_wellformed. Qed.
+Print Assumptions C14_scan_response_wellformed.
+
+(* ... and the code as it was (scan_auto_unfixed: buffer[0] = 0; buffer[1] = 0; return 2): *)
+Definition C14_unfixed_scan_response_safe_full : Prop := scan_unfixed_safe_full.
+Theorem C14_unfixed_scan_response_refuted : ~ C14_unfixed_scan_response_safe_full.
+Proof. exact scan_unfixed_refuted. Qed.
+Theorem C14_unfixed_scan_response_faults_below_2 : forall b, b < 2 -> scan_auto_unfixed b = None.
+Proof. exact scan_unfixed_faults. Qed.
+(* what did hold of it: for b >= 2 it is the fixed function *)
+Theorem C14_unfixed_scan_response_partial : forall b, 2 <= b -> scan_auto_unfixed b = scan_auto b.
+Proof. exact scan_unfixed_ok. Qed.
+Print Assumptions C14_unfixed_scan_response_refuted.
+
+(* 7. The monitor accepts every trace of the model: any declaration, any sequence of operations (runtime data
+      of any length set at any time, scan_response_data with any buffer size, advertising_data with b <= 259). *)
+Theorem C14_monitor_accepts_model :
+  forall (c : cfg) (ops : list op), wf_cfg c -> Forall bounded ops -> monitor c (run c (init c) ops) = None.
+Proof. exact monitor_accepts_model. Qed.
+Print Assumptions C14_monitor_accepts_model.
+
+(* 8. The bound 259 is tight. Without it the statement is FALSE: the length octet of an AD structure is a
+      std::uint8_t store, so a name of >= 255 octets in a buffer of >= 260 octets gets a length octet that is
+      not its length. Not a defect for legacy advertising (31 octets; advertising.hpp passes 31) - recorded
+      as the limit of the unbounded claim. What is missing w.r.t. the full statement is exactly b <= 259. *)
+Definition C14_wellformed_any_buffer_full : Prop := wellformed_any_buffer_full.
+Theorem C14_wellformed_any_buffer_refuted : ~ C14_wellformed_any_buffer_full.
+Proof. exact wellformed_any_buffer_refuted. Qed.
+Theorem C14_tiling_fails_at_260 :
+  monitor long_name_cfg (run long_name_cfg (init long_name_cfg) [Adv 260]) = Some (0, t_tiling).
+Proof. exact tiling_refuted_at_260. Qed.
+Print Assumptions C14_wellformed_any_buffer_refuted.
+
+(* ---- non-vacuity ---- *)
+Definition ex_cfg : cfg :=
+  mkcfg (Some [84; 101; 115; 116]%N) (Some 832%N) [4660; 43981]%N
+        [[145; 17; 106; 165; 177; 233; 160; 160; 214; 64; 210; 1; 221; 147; 19; 17]%N]
+        (Some (6, 3200)%N) None None false false.
+Example C14_wf_nonvacuous : wf_cfg ex_cfg.
+Proof. repeat constructor. Qed.
+(* a concrete payload: flags, appearance, complete name, complete 16-bit list, (no room for the 128-bit UUID),
+   interval range, two empty structures; and a shortened name / incomplete list in a small buffer *)
+Example C14_example_31 :
+  step ex_cfg (init ex_cfg) (Adv 31) =
+    (init ex_cfg, ORes 27 ([2; 1; 6; 3; 25; 64; 3; 5; 9; 84; 101; 115; 116; 5; 3; 52; 18; 205; 171; 5; 18; 6; 0; 128; 12; 0; 0]%N
+                           ++ repeat fill 4)).
+Proof. vm_compute. reflexivity. Qed.
+Example C14_example_shortened :
+  spec_ads ex_cfg 10 = [AD ad_flags [6%N]; AD ad_appearance [64; 3]%N; AD ad_short_name [84%N]] /\
+  spec_ads ex_cfg 17 = [AD ad_flags [6%N]; AD ad_appearance [64; 3]%N; AD ad_complete_name [84; 101; 115; 116]%N;
+                        AD ad_incomplete_16 [52; 18]%N].
+Proof. split; vm_compute; reflexivity. Qed.
+Example C14_ops_bounded_nonvacuous :
+  Forall bounded [SetAdv [1; 2]%N; Adv 0; Adv 3; Adv 31; Adv 259; Scan 0; Scan 1; Scan 1000].
+Proof. repeat constructor. Qed.
+
+(* the monitor is not trivially accepting: each clause rejects a concrete bad output *)
+Definition one (o : op) (r : out) : option (nat * nat) := monitor ex_cfg [(o, r)].
+Example C14_monitor_rejects_fault : one (Scan 1) OFault = Some (0, t_overflow).
+Proof. vm_compute. reflexivity. Qed.
+Example C14_monitor_rejects_write_past_result : one (Scan 3) (ORes 2 [0; 0; 0]%N) = Some (0, t_overflow).
+Proof. vm_compute. reflexivity. Qed.
+Example C14_monitor_rejects_result_past_buffer : one (Scan 1) (ORes 2 [0%N]) = Some (0, t_length).
+Proof. vm_compute. reflexivity. Qed.
+Example C14_monitor_rejects_length_past_payload :
+  one (Adv 9) (ORes 9 [2; 1; 6; 7; 25; 64; 3; 0; 0]%N) = Some (0, t_tiling).
+Proof. vm_compute. reflexivity. Qed.
+Example C14_monitor_rejects_padding_before_structure :
+  one (Adv 9) (ORes 9 [2; 1; 6; 0; 0; 3; 25; 64; 3]%N) = Some (0, t_tiling).
+Proof. vm_compute. reflexivity. Qed.
+Example C14_monitor_rejects_missing_flags :
+  one (Adv 9) (ORes 9 [3; 25; 64; 3; 4; 8; 84; 101; 115]%N) = Some (0, t_flags_first).
+Proof. vm_compute. reflexivity. Qed.
+Example C14_monitor_rejects_truncated_name_marked_complete :
+  one (Adv 10) (ORes 10 [2; 1; 6; 3; 25; 64; 3; 2; 9; 84]%N) = Some (0, t_name_kind).
+Proof. vm_compute. reflexivity. Qed.
+Example C14_monitor_rejects_whole_name_marked_shortened :
+  one (Adv 13) (ORes 13 [2; 1; 6; 3; 25; 64; 3; 5; 8; 84; 101; 115; 116]%N) = Some (0, t_name_kind).
+Proof. vm_compute. reflexivity. Qed.
+Example C14_monitor_rejects_partial_list_marked_complete :
+  one (Adv 17) (ORes 17 [2; 1; 6; 3; 25; 64; 3; 5; 9; 84; 101; 115; 116; 3; 3; 52; 18]%N) = Some (0, t_uuid_kind).
+Proof. vm_compute. reflexivity. Qed.
+Example C14_monitor_rejects_swapped_128_code :
+  one (Adv 21) (ORes 21 ([2; 1; 6; 17; 6]%N ++ [145; 17; 106; 165; 177; 233; 160; 160; 214; 64; 210; 1; 221; 147; 19; 17]%N))
+    = Some (0, t_uuid_kind).
+Proof. vm_compute. reflexivity. Qed.
+Example C14_monitor_rejects_wrong_appearance :
+  one (Adv 7) (ORes 7 [2; 1; 6; 3; 25; 65; 3]%N) = Some (0, t_ad_type).
+Proof. vm_compute. reflexivity. Qed.
+Example C14_monitor_rejects_bad_custom_copy :
+  monitor (mkcfg None None [] [] None (Some [1; 2; 3]%N) None false false) [(Adv 2, ORes 2 [1; 3]%N)] = Some (0, t_custom).
+Proof. vm_compute. reflexivity. Qed.
+
+(* constants regenerated from codes.hpp / the headers on every run *)
 From BT Require gen.GenAdvData.
 Example C14_constants_are_the_codes :
-  GenAdvData.gap_flags = ad_flags /\ GenAdvData.gap_complete_local_name = ad_complete_name.
+  GenAdvData.gap_flags = ad_flags /\ GenAdvData.gap_incomplete_service_uuids_16 = ad_incomplete_16 /\
+  GenAdvData.gap_complete_service_uuids_16 = ad_complete_16 /\
+  GenAdvData.gap_incomplete_service_uuids_128 = ad_incomplete_128 /\
+  GenAdvData.gap_complete_service_uuids_128 = ad_complete_128 /\
+  GenAdvData.gap_shortened_local_name = ad_short_name /\ GenAdvData.gap_complete_local_name = ad_complete_name /\
+  GenAdvData.gap_appearance = ad_appearance /\ GenAdvData.range_ad_type = ad_range /\
+  GenAdvData.range_ad_length = 5%N /\ GenAdvData.appearance_ad_size = 4%N /\
+  GenAdvData.runtime_adv_max_size = N.of_nat max_runtime /\ GenAdvData.runtime_scan_max_size = N.of_nat max_runtime /\
+  GenAdvData.flags_min_buffer = 3%N /\ GenAdvData.flags_ad_length = 2%N /\ GenAdvData.flags_value = 6%N.
+Proof. repeat split; reflexivity. Qed.
+(* ... and they are the values assigned by the Bluetooth Core Specification Supplement, Part A *)
+Example C14_codes_are_the_assigned_numbers :
+  ad_flags = 1%N /\ ad_incomplete_16 = 2%N /\ ad_complete_16 = 3%N /\ ad_incomplete_128 = 6%N /\ ad_complete_128 = 7%N /\
+  ad_short_name = 8%N /\ ad_complete_name = 9%N /\ ad_range = 18%N /\ ad_appearance = 25%N.
 Proof. repeat split; reflexivity. Qed.
